@@ -457,7 +457,7 @@ func (g *Gen) opCall() {
 }
 
 func (g *Gen) rememberRequests() {
-	for id := range g.r.pre.ActiveID {
+	for _, id := range g.r.pre.PendingIDs() {
 		found := false
 		for _, p := range g.pastReqs {
 			if p == id {
